@@ -1,0 +1,131 @@
+//go:build verif
+// +build verif
+
+package nutsdb
+
+import (
+	"sync"
+	"unsafe"
+)
+
+// Verification hooks, compiled in only with `-tags verif`. Every hook is inert
+// until a harness installs the corresponding function variable.
+
+var (
+	// VerifFSHook observes (and may replace) a file mutation. When it returns
+	// handled=true the call site returns (n, err) instead of doing the I/O.
+	VerifFSHook func(op, path string, off int64, data []byte) (handled bool, n int, err error)
+
+	// VerifLockHook is called while db.mu is held: after an acquisition
+	// ("acq") and before a release ("rel").
+	VerifLockHook func(ev string, db *DB, writable bool)
+
+	// VerifGateHook may block or yield at a named site.
+	VerifGateHook func(site string, db *DB)
+
+	// VerifAccessHook reports an access to a shared object.
+	VerifAccessHook func(obj string, write bool, db *DB)
+
+	verifMapMu    sync.Mutex
+	verifMapPaths = map[uintptr]string{}
+)
+
+func verifFS(op, path string, off int64, data []byte) (bool, int, error) {
+	if h := VerifFSHook; h != nil {
+		return h(op, path, off, data)
+	}
+	return false, 0, nil
+}
+
+func verifMapPath(m []byte, path string) {
+	if len(m) == 0 {
+		return
+	}
+	verifMapMu.Lock()
+	verifMapPaths[uintptr(unsafe.Pointer(&m[0]))] = path
+	verifMapMu.Unlock()
+}
+
+func verifPathOf(m []byte) string {
+	if len(m) == 0 {
+		return ""
+	}
+	verifMapMu.Lock()
+	defer verifMapMu.Unlock()
+	return verifMapPaths[uintptr(unsafe.Pointer(&m[0]))]
+}
+
+func verifLock(ev string, db *DB, writable bool) {
+	if h := VerifLockHook; h != nil {
+		h(ev, db, writable)
+	}
+}
+
+func verifGate(site string, db *DB) {
+	if h := VerifGateHook; h != nil {
+		h(site, db)
+	}
+}
+
+func verifAccess(obj string, write bool, db *DB) {
+	if h := VerifAccessHook; h != nil {
+		h(obj, write, db)
+	}
+}
+
+// VerifTxID returns the transaction id.
+func VerifTxID(tx *Tx) uint64 { return tx.id }
+
+// VerifPendingLen returns the number of buffered writes of tx.
+func VerifPendingLen(tx *Tx) int { return len(tx.pendingWrites) }
+
+// VerifOptions returns the options the database was opened with.
+func VerifOptions(db *DB) Options { return db.opt }
+
+// VerifNewEntry builds an Entry with every header field set.
+func VerifNewEntry(bucket, key, value []byte, ts uint64, ttl uint32, flag, status, ds uint16, txID uint64) *Entry {
+	return &Entry{
+		Key:   key,
+		Value: value,
+		Meta: &MetaData{
+			keySize:    uint32(len(key)),
+			valueSize:  uint32(len(value)),
+			timestamp:  ts,
+			TTL:        ttl,
+			Flag:       flag,
+			bucket:     bucket,
+			bucketSize: uint32(len(bucket)),
+			txID:       txID,
+			status:     status,
+			ds:         ds,
+		},
+	}
+}
+
+// VerifEntryFields returns the header fields of an entry read back.
+func VerifEntryFields(e *Entry) (bucket []byte, ts uint64, ttl uint32, flag, status, ds uint16, txID uint64) {
+	m := e.Meta
+	return m.bucket, m.timestamp, m.TTL, m.Flag, m.status, m.ds, m.txID
+}
+
+// VerifNewRootIdx builds a sparse root-index record.
+func VerifNewRootIdx(fID, rootOff uint64, start, end []byte) *BPTreeRootIdx {
+	return &BPTreeRootIdx{fID: fID, rootOff: rootOff, start: start, end: end,
+		startSize: uint32(len(start)), endSize: uint32(len(end))}
+}
+
+// VerifRootIdxFields returns the fields of a sparse root-index record.
+func VerifRootIdxFields(r *BPTreeRootIdx) (fID, rootOff uint64, start, end []byte) {
+	return r.fID, r.rootOff, r.start, r.end
+}
+
+// VerifNewBucketMeta builds a bucket metadata record.
+func VerifNewBucketMeta(start, end []byte) *BucketMeta {
+	return &BucketMeta{start: start, end: end, startSize: uint32(len(start)), endSize: uint32(len(end))}
+}
+
+// VerifBucketMetaFields returns the fields of a bucket metadata record.
+func VerifBucketMetaFields(b *BucketMeta) (start, end []byte) { return b.start, b.end }
+
+// VerifDataFileRW exposes the read/write manager of a data file.
+func VerifDataFileRW(df *DataFile) RWManager { return df.rwManager }
